@@ -7,7 +7,6 @@ V = os.path.dirname(os.path.dirname(os.path.abspath(__file__)))
 
 NA = {
     "C03": "sample-exact equality with an independent encoder is a value-level statement over all sample values and tree shapes; no clause of it is visible in the shape of the code",
-    "C12": "agreement of two numeric pipelines (and SIMD vs scalar) over all samples; no structural necessary condition a realistic regression would break",
 }
 
 CHECKS = {
@@ -128,6 +127,15 @@ CHECKS = {
              "the round trip or the transfer curves (tolerances, monotonicity, custom chromaticities, arbitrary gamma).",
         note="the rational approximations of the PQ / sRGB curves are snapshot-guarded only (stated in evidence)",
         ref="DESIGN.md section 8.9"),
+    "C12": dict(
+        technique="exhaustive decision-table extraction of the buffer-width predicate by abstract evaluation of MIR; sibling-implementation cross-checks (resolved callees and operators of the I32 vs I16 arms and of the i32 vs i16 trait impls)",
+        text="Claimed narrowly: what selects the buffer width, and that both widths go through the same operations. narrow_modular equals "
+             "`!force_wide && header flag` for all four input combinations and the builder setting reaches the render context; every match "
+             "on ImageBuffer with separate 32-bit / 16-bit arms (15) and every i16/i32 pair of Sample/Sealed methods (12) use the same "
+             "resolved callees and operators, reviewed exceptions listed with their reason. Does not decide identity of the decoded samples, "
+             "nor the i16 SIMD squeeze kernels against the scalar code.",
+        note="sibling agreement is a cross-check, not a proof of equal results: arms that differ only in arithmetic constants of the same operators are not distinguished",
+        ref="DESIGN.md section 8.13"),
     "C17": dict(
         technique="interval abstract interpretation of reconstruction-header fields to panicking operations; validation-check reconstruction from MIR against a reviewed table; per-variant constant-propagating path rules for the status query",
         text="Claimed narrowly: the two clauses visible in the shape of the code. (1) jpeg_reconstruction_status reports Available only on the "
